@@ -585,7 +585,7 @@ impl Property for C13 {
     }
 
     fn plan(&self, tier: Tier) -> Vec<Stage<Case>> {
-        vec![Stage::random("systems", tier.pick(40_000, 1_000_000), case_strategy)]
+        vec![Stage::random("systems", tier.pick(200_000, 5_000_000), case_strategy)]
     }
 
     fn rule(&self) -> String {
@@ -593,7 +593,7 @@ impl Property for C13 {
     }
 
     fn floors(&self, tier: Tier) -> Vec<Floor> {
-        let n = tier.pick(40_000u64, 1_000_000);
+        let n = tier.pick(200_000u64, 5_000_000);
         let mut f = vec![
             Floor { label: "pivot:row-swap-needed", min: n / 3 },
             Floor { label: "pivot:swap-in-column>=2", min: n / 10 },
